@@ -310,6 +310,8 @@ def check(plan: Dict[str, Any], execution: Dict[str, Any], props: Optional[Set[s
         first_seq: Dict[str, Any] = {}
         last_built_rank = None
         for r in results:
+            if r.get("skipped"):
+                continue
             o = sess["ops"][r["i"]]
             fired = [e for e in r["events"] if e.get("ev") == "fault_fired"]
             if o["op"] == "callgraph":
